@@ -1896,6 +1896,7 @@ static void InitFields(void) {
     AddFixed("BRK", 0x005e);
     AddFixed("RET", 0x0056);
     AddFixed("RETI", 0x0057);
+    AddFixed("RETB", 0x005f);
 
     AddInstTable(InstTable, "PUSH", 0x4935, DecodePUSHPOP);
     AddInstTable(InstTable, "PUSHU", 0x0037, DecodePUSHPOP);
